@@ -200,3 +200,31 @@ impl PathRewritePlugin for JoinNumericPlugin {
         self.rewrite_gen(text, path)
     }
 }
+
+/// Verification hook: feed `text` to a fresh [`NumericParser`] character by character.
+///
+/// Returns `(n, err, done, normalized)`: `n` is the index of the first rejected character
+/// (or the number of characters when all were accepted), `err` is the error state (0 NONE,
+/// 1 POINT, 2 COMMA) after the last call, `done` the result of `done()` (called only when
+/// every character was accepted) and `normalized` the rendering of the total after `done()`.
+#[cfg(feature = "verif")]
+pub fn verif_parse(text: &str) -> (usize, u8, bool, String) {
+    fn code(e: &numeric_parser::Error) -> u8 {
+        match e {
+            numeric_parser::Error::NONE => 0,
+            numeric_parser::Error::POINT => 1,
+            numeric_parser::Error::COMMA => 2,
+        }
+    }
+    let mut parser = NumericParser::new();
+    let mut n = 0;
+    for c in text.chars() {
+        if !parser.append(&c) {
+            return (n, code(&parser.error_state), false, String::new());
+        }
+        n += 1;
+    }
+    let done = parser.done();
+    let norm = parser.get_normalized();
+    (n, code(&parser.error_state), done, norm)
+}
